@@ -126,6 +126,7 @@ pub fn universe(tier: Tier) -> Vec<RVal> {
     }
     out.extend(univ::relation_universe(univ::d2(), false));
     out.extend(refmodel::gen::strkey_docs());
+    out.extend(refmodel::gen::tagv_relation_docs());
     if tier.thorough() {
         out.extend(univ::p5().iter().cloned());
     }
